@@ -388,11 +388,11 @@ clear_ret:
 %endrep
 
         ;; Clear first 48 bytes (SHA-384) or 64 bytes (SHA-512) of outer_block
-        movdqa  [lane_data + _outer_block], xmm0
-        movdqa  [lane_data + _outer_block + 16], xmm0
-        movdqa  [lane_data + _outer_block + 32], xmm0
+        movdqa  [lane_data + _outer_block_sha512], xmm0
+        movdqa  [lane_data + _outer_block_sha512 + 16], xmm0
+        movdqa  [lane_data + _outer_block_sha512 + 32], xmm0
 %if (SHA_X_DIGEST_SIZE != 384)
-        movdqa  [lane_data + _outer_block + 48], xmm0
+        movdqa  [lane_data + _outer_block_sha512 + 48], xmm0
 %endif
 %endif ;; SAFE_DATA
 
